@@ -184,6 +184,39 @@ JudgeGcdMany(c, o) ==
     ELSE IF IsGcdMany(o.v[1].n, c.xs) THEN "OK" ELSE "gcdmany-not-gcd"
 
 (***************************************************************************)
+(* (b') Entry points.  "The extended Euclidean routine ... and lcm is      *)
+(* consistent with it" is exposed through several doors: the functions of  *)
+(* pymbolic.algorithm ("alg") and the traits objects of the operands -     *)
+(* traits(q) ("traits_q"), traits(r) ("traits_r"), common_traits(q, r)     *)
+(* ("common") and the generic class EuclideanRingTraits itself ("ring") -  *)
+(* each with gcd_extended / gcd / lcm.  The statement is about the         *)
+(* operands in the order the CALLER gave them, whatever door was used:     *)
+(* every entry is driven with the same pairs and judged with the same      *)
+(* clauses (JudgeEE, JudgeGcd, JudgeLcm above).                            *)
+(*                                                                         *)
+(* A-layer (pymbolic/traits.py as the code has it): gcd_extended(q, r) is  *)
+(* extended_euclidean(q, r), gcd its first component, lcm = a*b/gcd(a, b)  *)
+(* (no abs; a true division whose result is exact in the model).  An       *)
+(* entry is modelled as "forward the operands, hand the triple back"; fw   *)
+(* = "" is the code, the other values are negative controls of C19_Algo.   *)
+(***************************************************************************)
+Entries == {"alg", "traits_q", "traits_r", "common", "ring"}
+EntrySeq == << "alg", "traits_q", "traits_r", "common", "ring" >>
+FwdOperands(e, q, r, fw) == IF e # "alg" /\ fw = "forward_swapped" THEN << r, q >> ELSE << q, r >>
+BackTriple(e, t, fw) == IF e # "alg" /\ fw = "coeffs_exchanged" THEN << t[1], t[3], t[2] >> ELSE t
+EntryEEB(e, q, r, fw) == LET ops == FwdOperands(e, q, r, fw) IN BackTriple(e, ExtEuclid(ops[1], ops[2]), fw)
+EntryEE(e, q, r) == EntryEEB(e, q, r, "")
+EntryGcd(e, q, r) == EntryEE(e, q, r)[1]
+\* <<1, value>>; <<0, 0>> = ZeroDivisionError
+EntryLcmB(e, q, r, fw) ==
+    LET g == GcdImpl(q, r) IN
+    IF g = 0 THEN << 0, 0 >>
+    ELSE IF fw = "lcm_divides_twice" THEN << 1, PyDiv(q, g) * PyDiv(r, g) >>
+    ELSE IF e = "alg" THEN << 1, PyDiv(Abs(q * r), g) >>
+    ELSE << 1, PyDiv(q * r, g) >>                 \* g divides q*r: the true division is exact
+EntryLcm(e, q, r) == EntryLcmB(e, q, r, "")
+
+(***************************************************************************)
 (* (c) The discrete Fourier transform over Z_p.                            *)
 (*   F[x]_k = sum_j z^(k j) x_j ,  z = w^sign, w of multiplicative order n *)
 (* pymbolic's z = exp(-2 i pi sign / n); the exact shim of the driver maps *)
@@ -312,4 +345,56 @@ JudgeSymGauss(c, o) ==
     ELSE IF o.r # "ok" THEN "SKIP"
     ELSE IF Len(o.y) # c.n THEN "symfft-length"
     ELSE IF o.y = GaussDFT(c.x, c.sign) THEN "OK" ELSE "symfft-value"
+
+(***************************************************************************)
+(* (b'') Pairs beyond 32 bit (and beyond the 53 bits of a float): one      *)
+(* operand is big = 2^k + a, the other a small integer sm # 0; sw = 1      *)
+(* means the caller passes (sm, big).  TLC cannot hold big, but it holds   *)
+(* big modulo any small modulus: the driver reports the triple as residues *)
+(* modulo the primes c.ps (and g itself when it is small), the lcm as      *)
+(* residues of numerator and denominator of the exact rational it is.      *)
+(*   - Bezout modulo every prime (a mismatch is a sound refutation);       *)
+(*   - g is a gcd: |g| = gcd(sm, big mod |sm|), decided exactly;           *)
+(*   - lcm consistent with the gcd: l * gcd = +- q*r modulo every prime    *)
+(*     with one sign for all of them.                                      *)
+(***************************************************************************)
+BigMod(c, m) == (PowMod(2 % m, c.k, m) + (c.a % m)) % m          \* (2^k + a) mod m, m >= 1
+BigGcd(c) == Gcd(c.sm, BigMod(c, Abs(c.sm)))                     \* gcd(2^k + a, sm) > 0
+BigOK(c) == c.sm # 0 /\ Abs(c.sm) <= LIMIT /\ c.k >= 0 /\ c.k <= 4000 /\ Abs(c.a) <= LIMIT /\ c.sw \in {0, 1}
+            /\ \A i \in 1..Len(c.ps) : c.ps[i] > 1 /\ c.ps[i] <= MAXP
+\* residues of the caller's first and second operand
+BigQ(c, p) == IF c.sw = 0 THEN BigMod(c, p) ELSE c.sm % p
+BigR(c, p) == IF c.sw = 0 THEN c.sm % p ELSE BigMod(c, p)
+MulMod(x, y, p) == ((x % p) * (y % p)) % p
+\* observation of gcd_extended: [r, e, g |-> value record, res |-> << <<g, a, b>> mod p, ... >>]
+JudgeBigEE(c, o) ==
+    IF ~BigOK(c) THEN "SKIP"
+    ELSE IF o.r = "err" THEN "ee-raised" ELSE IF o.r = "timeout" THEN "ee-timeout"
+    ELSE IF o.r # "ok" \/ Len(o.res) # Len(c.ps) \/ \E i \in 1..Len(o.res) : Len(o.res[i]) # 3 THEN "SKIP"
+    ELSE IF \E i \in 1..Len(c.ps) :
+               LET p == c.ps[i] t == o.res[i] IN
+               (t[1] % p) # (MulMod(t[2], BigQ(c, p), p) + MulMod(t[3], BigR(c, p), p)) % p
+         THEN "ee-bezout"
+    ELSE IF ~(IsNum(o.g) /\ o.g.d = 1) THEN "SKIP"
+    ELSE IF Abs(o.g.n) # BigGcd(c) THEN "ee-not-gcd" ELSE "OK"
+JudgeBigGcd(c, o) ==
+    IF ~BigOK(c) THEN "SKIP"
+    ELSE IF o.r = "err" THEN "gcd-raised" ELSE IF o.r = "timeout" THEN "gcd-timeout"
+    ELSE IF ~IntRes(o, 1) THEN "SKIP"
+    ELSE IF Abs(o.v[1].n) # BigGcd(c) THEN "gcd-not-gcd" ELSE "OK"
+\* observation of lcm: [r, e, res |-> << <<N mod p, D mod p>>, ... >>] for the result N/D
+JudgeBigLcm(c, o) ==
+    IF ~BigOK(c) THEN "SKIP"
+    ELSE IF o.r = "err" THEN "lcm-raised" ELSE IF o.r = "timeout" THEN "lcm-timeout"
+    ELSE IF o.r # "ok" \/ Len(o.res) # Len(c.ps) \/ \E i \in 1..Len(o.res) : Len(o.res[i]) # 2 THEN "SKIP"
+    ELSE LET g == BigGcd(c)
+             \* N * g = sg * D * q * r  (mod p)
+             Holds(sg) == \A i \in 1..Len(c.ps) :
+                            LET p == c.ps[i] t == o.res[i]
+                                lhs == MulMod(t[1], g, p)
+                                rhs == MulMod(t[2], MulMod(BigQ(c, p), BigR(c, p), p), p)
+                            IN lhs = (IF sg = 1 THEN rhs ELSE (p - rhs) % p)
+         IN IF Holds(1) \/ Holds(-1) THEN "OK" ELSE "lcm-wrong"
+\* does the exact product of the operands need more than the 53 bits of a float
+BeyondFloat(c) == c.k >= 50
 =============================================================================
